@@ -14,6 +14,9 @@
 //             1 per-index body f(i) via parallel_for(ts, start, end, f, opts)
 //   VF_ENTRY  (VF_API 0, VF_MODE 0/1) 0: parallel_for(ts, start, end, f, opts); 1: parallel_for(ts, makeChunkedRange(..), f, opts)
 //   VF_EDGE   0: any start; k: start within k of the type's minimum, of zero or of the type's maximum
+//   VF_CTX    1: symbolic caller context (pool thread or not, ring index, nesting level); 0: plain external caller
+//   VF_L3     largest number of L3 cache groups reported by CpuSet::l3CacheGroups() (0..2)
+//   VF_NLO    smallest pool size
 //   VF_S      bound on the range size; 0 = unbounded (8-bit types: the whole (start,end) square)
 //   VF_N      largest pool size (numPoolThreads in 0..VF_N)
 //   VF_GLO/VF_GHI  granularity range
@@ -81,6 +84,12 @@ inline void alignedFree(void* ptr) {
 #endif
 #ifndef VF_EDGE
 #define VF_EDGE 0
+#endif
+#ifndef VF_CTX
+#define VF_CTX 1
+#endif
+#ifndef VF_L3
+#define VF_L3 2
 #endif
 #ifndef VF_NLO
 #define VF_NLO 0
@@ -365,13 +374,25 @@ static void vf_pf_driver() {
   {
     // the caller is: not a pool thread / a thread of this pool with ring index 0..N-1 or none /
     // a thread of another pool; it is inside an enclosing parallel_for (nesting) or not.
+#if VF_CTX
     uint32_t who = vf_range_u32(0, 2);
+#else
+    uint32_t who = 0;
+#endif
     auto& pti = dispenso::detail::g_vf_pti;
     pti.pool = who == 0 ? nullptr : who == 1 ? static_cast<void*>(&ts.pool_) : static_cast<void*>(&otherPool);
     pti.ringIndex = who == 0 ? -1 : static_cast<int32_t>(vf_range_u32(0, VF_N + 1)) - 1;
+#if VF_CTX
     pti.parForRecursionLevel = vf_nondet_bool() ? 1 : 0;
+#else
+    pti.parForRecursionLevel = 0;
+#endif
   }
-  vf_set_l3_groups(vf_range_u32(0, 2));
+#if VF_L3
+  vf_set_l3_groups(vf_range_u32(0, VF_L3));
+#else
+  vf_set_l3_groups(0);
+#endif
 
   // ---- options
   dispenso::ParForOptions opts;
